@@ -14,17 +14,20 @@ Theorem range_kth : forall fuel iv u n k x,
 Proof. exact range_kth_l. Qed.
 Print Assumptions range_kth.
 
-(* 2. a finished run yields exactly the prefix of that sequence that is not beyond the end, and the next element is beyond it *)
+(* 2. a finished run yields exactly the prefix of that sequence that is not beyond the end; the next element is beyond it, or it is outside the
+   supported range of dates (computing it raises OverflowError / ValueError: limit_exn), which can only happen after at least one value *)
 Theorem range_prefix : forall fuel iv u n l,
   py_range fuel iv u n = (l, GDone) ->
   (forall j, (j < length l)%nat -> exists x, nth_error l j = Some x /\ seq_at iv u n j = Ok x /\ within iv x = true) /\
-  (exists y, seq_at iv u n (length l) = Ok y /\ within iv y = false).
+  ((exists y, seq_at iv u n (length l) = Ok y /\ within iv y = false) \/
+   (exists e, seq_at iv u n (length l) = Raise e /\ limit_exn e = true /\ (1 <= length l)%nat)).
 Proof. exact range_prefix_l. Qed.
 Print Assumptions range_prefix.
 
-(* 3. the only other way a run ends: computing the next element raised (after at least one value) *)
+(* 3. the only other way a run ends: computing the next element raised something else than OverflowError / ValueError (after at least one value),
+   e.g. TypeError from Date.add(hours=...) *)
 Theorem range_raise_end : forall fuel iv u n l e,
-  py_range fuel iv u n = (l, GRaise e) -> seq_at iv u n (length l) = Raise e /\ (1 <= length l)%nat.
+  py_range fuel iv u n = (l, GRaise e) -> seq_at iv u n (length l) = Raise e /\ limit_exn e = false /\ (1 <= length l)%nat.
 Proof. exact range_raise_l. Qed.
 Print Assumptions range_raise_end.
 
@@ -54,14 +57,21 @@ Theorem end_yielded_only_if_reachable : forall iv u n fuel,
 Proof. exact end_yielded_only_if_reachable_l. Qed.
 Print Assumptions end_yielded_only_if_reachable.
 
-(* 7. iterating the interval directly is the daily range; `x in interval` is start <= x <= end *)
+(* 7. iterating the interval directly is the daily range; `x in interval` is lo <= x <= hi, the two ends taken in ascending order
+   (an inverted, non-absolute interval stores start > end), with Python's <= on the values — forward, absolute and inverted intervals *)
 Theorem iter_is_daily_range : forall fuel iv, py_iter fuel iv = py_range fuel iv U_days 1.
 Proof. exact iter_is_range_days. Qed.
 Print Assumptions iter_is_daily_range.
 
-Theorem contains_spec : forall iv x, py_contains iv x = dt_le (iv_start iv) x && dt_le x (iv_end iv).
+Theorem contains_spec : forall iv x, py_contains iv x =
+  if range_down iv then dt_le (iv_end iv) x && dt_le x (iv_start iv) else dt_le (iv_start iv) x && dt_le x (iv_end iv).
 Proof. exact contains_spec_l. Qed.
 Print Assumptions contains_spec.
+
+(* on a constructed interval: min(start, end) <= x <= max(start, end) whichever way round the ends were given, absolute or not *)
+Theorem contains_min_max : forall s e ab x, py_contains (mk_interval s e ab) x = dt_le (lo_end s e) x && dt_le x (hi_end s e).
+Proof. exact contains_min_max_l. Qed.
+Print Assumptions contains_min_max.
 
 (* 8. Interval.__init__: direction of the iteration *)
 Theorem range_direction : forall s e ab, range_down (mk_interval s e ab) = negb ab && dt_gt s e.
@@ -103,6 +113,14 @@ Theorem range_contained_partial_plain : forall iv u n,
   else dt_le (iv_start iv) x = true /\ dt_le x (iv_end iv) = true.
 Proof. exact range_contained_plain_l. Qed.
 Print Assumptions range_contained_partial_plain.
+
+(* same domain: every yielded value is `in` the interval that yielded it — inverted intervals included
+   (partial: plain values; inside a repeated hour of a zone `in` compares wall clocks, see range_contained_instants_refuted) *)
+Theorem range_values_are_members_partial_plain : forall iv u n,
+  wall_in_range (dv_W (iv_start iv)) = true -> plain (iv_start iv) -> 1 <= n -> forall fuel k x,
+  nth_error (fst (py_range fuel iv u n)) k = Some x -> py_contains iv x = true.
+Proof. exact range_members_plain_l. Qed.
+Print Assumptions range_values_are_members_partial_plain.
 
 (* 12. every well-formed zone, hours/minutes/seconds/microseconds: the k-th value is at start instant +- k*n units exactly, hence strictly monotone *)
 Theorem range_fixed_units_instants : forall fuel iv u n k x,
@@ -160,18 +178,27 @@ Theorem range_contained_instants_refuted :
 Proof. exact range_contained_instants_refuted_l. Qed.
 Print Assumptions range_contained_instants_refuted.
 
-(* 16. CURRENT CODE: the values yielded by an inverted interval are not `in` it *)
-Theorem contains_inverted_refuted :
-  exists iv fuel, range_down iv = true /\ snd (py_range fuel iv U_days 1) = GDone /\ length (fst (py_range fuel iv U_days 1)) = 6%nat /\
-    forallb (fun x => negb (py_contains iv x)) (fst (py_range fuel iv U_days 1)) = true.
-Proof. exact contains_inverted_refuted_l. Qed.
-Print Assumptions contains_inverted_refuted.
+(* 16. an inverted interval (2020-01-10 down to 2020-01-05): the six values it yields, its own ends among them, are `in` it; the days next to its ends are not *)
+Theorem contains_inverted_witness :
+  let iv := mk_interval (d 737433) (d 737428) false in
+  range_down iv = true /\ snd (py_range 10 iv U_days 1) = GDone /\ length (fst (py_range 10 iv U_days 1)) = 6%nat /\
+  forallb (py_contains iv) (fst (py_range 10 iv U_days 1)) = true /\ py_contains iv (d 737434) = false /\ py_contains iv (d 737427) = false.
+Proof. exact contains_inverted_witness_l. Qed.
+Print Assumptions contains_inverted_witness.
 
-(* 17. CURRENT CODE: an interval ending on 9999-12-31 cannot be iterated to the end: OverflowError after the last value *)
-Theorem range_raises_at_limit_refuted :
-  exists iv fuel, plain (iv_start iv) /\ py_range fuel iv U_days 1 = ([d 3652057; d 3652058], GRaise E_OverflowError).
-Proof. exact range_raises_at_limit_refuted_l. Qed.
-Print Assumptions range_raises_at_limit_refuted.
+(* 17. the limits of the calendar: the iteration never ends with OverflowError / ValueError, for every interval, unit, step and fuel; an interval
+   ending on 9999-12-31 (or going down to 0001-01-01) is iterated to its end and then stops *)
+Theorem range_stops_at_limit : forall fuel iv u n e, snd (py_range fuel iv u n) = GRaise e -> limit_exn e = false.
+Proof. exact range_no_limit_exn_l. Qed.
+Print Assumptions range_stops_at_limit.
+
+Theorem range_at_limit_witness :
+  py_range 10 (mk_interval (d 3652057) (d 3652058) false) U_days 1 = ([d 3652057; d 3652058], GDone) /\
+  seq_at (mk_interval (d 3652057) (d 3652058) false) U_days 1 2 = Raise E_OverflowError /\
+  py_range 10 (mk_interval (d 31) (d 0) false) U_months 1 = ([d 31; d 0], GDone) /\
+  limit_exn E_OverflowError = true /\ limit_exn E_ValueError = true /\ limit_exn E_TypeError = false.
+Proof. exact range_at_limit_witness_l. Qed.
+Print Assumptions range_at_limit_witness.
 
 (* 18. the two ends carry DIFFERENT tzinfo objects (start in a zone, end in UTC / a fixed offset / another zone), hours .. microseconds, every
    well-formed zone: Python orders such values by their instants, so the run yields EXACTLY the indices k whose instant  start +- k*n units  is not
@@ -183,23 +210,24 @@ Theorem range_mixed_zones_stop_by_instant : forall iv u n,
   py_range fuel iv u n = (l, GDone) ->
   (forall j x, nth_error l j = Some x ->
      dv_inst x = inst_at iv u n j /\ inst_within iv (inst_at iv u n j) = true /\ dv_tzid x = dv_tzid (iv_start iv)) /\
-  inst_within iv (inst_at iv u n (length l)) = false.
+  (inst_within iv (inst_at iv u n (length l)) = false \/ exists e, seq_at iv u n (length l) = Raise e /\ limit_exn e = true).
 Proof. exact range_mixed_stop_l. Qed.
 Print Assumptions range_mixed_zones_stop_by_instant.
 
 Theorem range_mixed_zones_exact : forall iv u n,
   wf_zone (dv_zone (iv_start iv)) = true -> dv_kind (iv_start iv) = K_AWARE -> dv_kind (iv_end iv) = K_AWARE ->
   dv_tzid (iv_start iv) <> dv_tzid (iv_end iv) -> 4 <= u <= 7 -> forall fuel l, 1 <= n ->
-  py_range fuel iv u n = (l, GDone) ->
+  py_range fuel iv u n = (l, GDone) -> (exists y, seq_at iv u n (length l) = Ok y) ->
   forall k, (k < length l)%nat <-> inst_within iv (inst_at iv u n k) = true.
 Proof. exact range_mixed_exact_l. Qed.
 Print Assumptions range_mixed_zones_exact.
 
-(* the end is yielded (as the last value) whenever its instant is on the grid start +- k*n units *)
+(* the end is yielded (as the last value) whenever its instant is on the grid start +- k*n units
+   (in both statements `exists y, seq_at ... (length l) = Ok y` says the run did not stop at the limit of the calendar: see range_prefix) *)
 Theorem range_mixed_zones_end_reached : forall iv u n,
   wf_zone (dv_zone (iv_start iv)) = true -> dv_kind (iv_start iv) = K_AWARE -> dv_kind (iv_end iv) = K_AWARE ->
   dv_tzid (iv_start iv) <> dv_tzid (iv_end iv) -> 4 <= u <= 7 -> forall fuel l k, 1 <= n ->
-  py_range fuel iv u n = (l, GDone) -> inst_at iv u n k = dv_inst (iv_end iv) ->
+  py_range fuel iv u n = (l, GDone) -> (exists y, seq_at iv u n (length l) = Ok y) -> inst_at iv u n k = dv_inst (iv_end iv) ->
   exists x, nth_error l k = Some x /\ dv_inst x = dv_inst (iv_end iv) /\ length l = S k.
 Proof. exact range_mixed_end_l. Qed.
 Print Assumptions range_mixed_zones_end_reached.
@@ -210,8 +238,10 @@ Theorem interval_direction_mixed_zones : forall s e ab, dv_kind e = K_AWARE -> d
 Proof. exact interval_direction_mixed_l. Qed.
 Print Assumptions interval_direction_mixed_zones.
 
-Theorem contains_mixed_zones : forall iv x, dv_kind (iv_start iv) = K_AWARE -> dv_kind x = K_AWARE ->
+Theorem contains_mixed_zones : forall iv x, dv_kind (iv_start iv) = K_AWARE -> dv_kind (iv_end iv) = K_AWARE -> dv_kind x = K_AWARE ->
   dv_tzid (iv_start iv) <> dv_tzid x -> dv_tzid x <> dv_tzid (iv_end iv) ->
-  py_contains iv x = (dv_inst (iv_start iv) <=? dv_inst x) && (dv_inst x <=? dv_inst (iv_end iv)).
+  py_contains iv x =
+    if range_down iv then (dv_inst (iv_end iv) <=? dv_inst x) && (dv_inst x <=? dv_inst (iv_start iv))
+    else (dv_inst (iv_start iv) <=? dv_inst x) && (dv_inst x <=? dv_inst (iv_end iv)).
 Proof. exact contains_mixed_l. Qed.
 Print Assumptions contains_mixed_zones.
